@@ -123,9 +123,18 @@ impl ConnectionState {
         &mut self,
         inner: &mut Inner,
         reply_code: AMQPHardError,
-        reply_text: String,
+        mut reply_text: String,
     ) -> Result<()> {
         error!("{} - closing connection", reply_text);
+        // reply-text is a shortstr; it quotes the offending frame and can be longer than the
+        // 255 bytes a shortstr can carry. Send the part that fits (the full text is logged).
+        if reply_text.len() > 255 {
+            let mut end = 255;
+            while !reply_text.is_char_boundary(end) {
+                end -= 1;
+            }
+            reply_text.truncate(end);
+        }
         let close = ConnectionClose {
             reply_code: reply_code.get_id(),
             reply_text,
